@@ -271,6 +271,23 @@ pub fn valloc_zeroed_avail(n: usize, Ghost(avail): Ghost<nat>) -> (r: Vec<u8>)
     requires n <= avail, n <= isize::MAX as usize,
     ensures r@.len() == n, forall|i: int| 0 <= i < n ==> r@[i] == 0u8,
 { vec![0; n] }
+/// D17d: `Vec::with_capacity(c)` in a reader of a stream: the reservation may exceed the bytes the
+/// stream will still deliver by at most a constant (ALLOC_SLACK), whatever the wire says
+pub const ALLOC_SLACK: usize = 65536;
+#[verifier::external_body]
+pub fn valloc_capacity_avail(c: usize, Ghost(avail): Ghost<nat>) -> (r: Vec<u8>)
+    requires c <= avail + ALLOC_SLACK, c <= isize::MAX as usize,
+    ensures r@.len() == 0,
+{ Vec::with_capacity(c) }
+/// `a.min(b)` on usize (Ord::min is generic)
+#[verifier::external_body]
+pub fn vmin_of_usize(a: usize, b: usize) -> (r: usize)
+    ensures r == (if a <= b { a } else { b }),
+{ core::cmp::min(a, b) }
+/// `std::io::ErrorKind::UnexpectedEof.into()`
+#[verifier::external_body]
+pub fn vio_unexpected_eof() -> (r: std::io::Error)
+{ std::io::ErrorKind::UnexpectedEof.into() }
 /// `String::from_utf8_unchecked(v)`: the bytes of the string are v (UTF-8 validity is the caller's
 /// obligation in the source and is not modelled)
 #[verifier::external_body]
